@@ -172,28 +172,33 @@ inductive ExpRes where
   | ready | closed | pending
 deriving Repr, DecidableEq
 
-/-- `poll_expired` finds that the timer that fired was armed with a clamped timeout: it arms a new one
-with (the next clamped part of) the rest, records its key and what is then still left; `none` = the
+/-- `poll_expired` finds that the timer that fired was armed with a clamped timeout and that, `late` ns
+after it was due, some of the time until the deadline is still left: it arms a new timer with (the next
+clamped part of) the rest, records its key and what is then still left; `none` = the
 `DelayQueue::insert` panicked. -/
-def rearm (s : St) (now : Nat) (en : SEntry) : Option St :=
-  match s.timers.insert now (clampTimeout en.remainder) en.id with
+def rearm (s : St) (now late : Nat) (en : SEntry) : Option St :=
+  match s.timers.insert now (clampTimeout (en.remainder - late)) en.id with
   | (_, .panic, _) => none
   | (q, .ok key, woke) =>
       let s := if woke then wakeServer s else s
       some { s with timers := q,
                     inflight := s.inflight.map (fun x =>
-                      if x.id == en.id then { x with timerKey := key, remainder := x.remainder - clampTimeout x.remainder }
+                      if x.id == en.id then
+                        { x with timerKey := key,
+                                 remainder := (x.remainder - late) - clampTimeout (x.remainder - late) }
                       else x) }
 
-/-- One iteration of the loop of `poll_expired`; `none` = `continue` (a timer was re-armed). -/
+/-- One iteration of the loop of `poll_expired`; `none` = `continue` (a timer was re-armed).
+`late`: how long ago the timer that fired was due (`expired.deadline()` is the queue's own tick). -/
 def expireStep (s : St) (now : Nat) : St × Option ExpRes :=
   match s.timers.pollExpired now with
   | (q, .expired e) =>
       let s1 := { s with timers := q }
       match findEntry s1 e.val with
       | some en =>
-          if en.remainder != 0 then
-            match rearm s1 now en with
+          let late := now - e.whenMs * nsPerMs
+          if en.remainder - late != 0 then
+            match rearm s1 now late en with
             | some s2 => (s2, none)
             -- the task panicked: nothing runs on this state any more (it is left as before the poll)
             | none => (emit { s with poisoned := true } (.panic (tid s) "DelayQueue::insert: invalid deadline"), some .closed)
